@@ -205,6 +205,63 @@ def run_scenario(sc):
     return rec
 
 
+def gen_part(chk):
+    """Select and Fit preconditions, exhaustively (spec/Selection via Gen_C02)"""
+    import FlowCal.mef
+    cfg = 'SPECIFICATION Spec\nINVARIANT ConstantInsideSelected\nINVARIANT OutsideNeverSelected\n'
+    res = tlc.require_ok(tlc.run_tlc('Gen_C02', cfg, dump=True), 'Gen_C02')
+    chk.add_tlc(res, 'Gen_C02')
+    neg = False
+    for st in res.dump_states():
+        if st['stage'] != 100:
+            continue
+        p1, p2, low, high = st['scn']
+        exp = st['out']
+        pops = [np.array(p1, dtype=float), np.array(p2, dtype=float)]
+        before = [p.copy() for p in pops]
+        try:
+            with warnings.catch_warnings():
+                warnings.simplefilter('ignore')
+                m = FlowCal.mef.selection_std(pops, low=low, high=high, scale='linear')
+            obs = [bool(x) for x in m]
+        except Exception as e:  # noqa
+            obs = 'raises:' + type(e).__name__
+        lab = None
+        if isinstance(obs, str):
+            lab = obs
+        elif len(obs) != 2:
+            lab = 'length'
+        else:
+            for i in range(2):
+                if exp[i] != 'tie' and obs[i] != (exp[i] == 'yes'):
+                    lab = 'selection'
+        if any(not np.array_equal(a, b) for a, b in zip(before, pops)):
+            lab = 'populations-changed'
+        if not neg and exp[0] == 'yes' and lab is None:
+            chk.negative_control(obs[0] is True, 'C02 selection comparator')
+            neg = True
+        chk.case(('sel', json.dumps(st['scn'])), nontrivial=exp[0] != exp[1])
+        chk.traces += 1
+        if lab:
+            chk.violation('C02/selection_std/' + lab, {'populations': [p1, p2], 'low': low, 'high': high}, exp, obs)
+    # fit preconditions (FitRefuses)
+    for nr, nm in ((2, 2), (1, 1), (3, 4), (4, 3), (0, 0), (3, 3), (5, 5)):
+        rfi = np.array([10., 50., 300., 2000., 9000.][:nr])
+        mefv = np.array([800., 4000., 30000., 150000., 700000.][:nm])
+        try:
+            FlowCal.mef.fit_beads_autofluorescence(rfi, mefv)
+            ok = True
+        except ValueError:
+            ok = False
+        except Exception:  # noqa
+            ok = None
+        refuses = nr != nm or nr <= 2
+        chk.case(('fit', nr, nm), nontrivial=True)
+        chk.traces += 1
+        if ok is None or ok == refuses:
+            chk.violation('C02/fit-precondition', {'n_rfi': nr, 'n_mef': nm}, 'refused' if refuses else 'fitted', ok)
+
+
 def main(chk, replay=None):
     chk.rule = ('TRACE: synthetic bead scenarios drawn per seed (K, channels, laws, blank, saturation, unknowns, clustering '
                 'channels, statistic); scenarios whose non-saturated populations are not 4 SD inside the selection thresholds '
@@ -220,6 +277,7 @@ def main(chk, replay=None):
     if not res.ok:
         raise tlc.MachineryError('Calibration: %s\n%s' % (res.violated, res.stdout[-1500:]))
     chk.add_tlc(res, 'Calibration[K=4,NCh=2]')
+    gen_part(chk)
     n = 32 if chk.quick else 800
     d = tlc.scratch('c02_')
     os.environ['C02_DIR'] = d
